@@ -145,14 +145,41 @@ def add_contexts(ureg):
         ureg.add_context(c)
 
 
-def new_registry(filename=None):
+FLOAT_MARK = "__float__"      # pseudo-definition in the declarative state: the registry's numeric type is float
+
+
+def new_registry(filename=None, nit=F):
     import pint
     if filename is None:
-        ureg = pint.UnitRegistry(non_int_type=F, cache_folder=None)
+        ureg = pint.UnitRegistry(non_int_type=nit, cache_folder=None)
     else:
-        ureg = pint.UnitRegistry(filename, non_int_type=F, cache_folder=None)
+        ureg = pint.UnitRegistry(filename, non_int_type=nit, cache_folder=None)
     add_contexts(ureg)
     return ureg
+
+
+def typed_magnitude(mtype, text):
+    from decimal import Decimal
+    if mtype == "int":
+        return int(F(text))
+    if mtype == "float":
+        return float(F(text))
+    if mtype == "Fraction":
+        return F(text)
+    return Decimal(text)
+
+
+def canon_typed(x):
+    """a magnitude WITH its Python type (floats to 12 significant digits: never compared bit for bit)"""
+    from decimal import Decimal
+    t = type(x).__name__
+    if isinstance(x, bool):
+        return (t, str(x))
+    if isinstance(x, (int, F, Decimal)):
+        return (t, str(x))
+    if isinstance(x, float):
+        return (t, f"{x:.12g}")
+    return (t, "?")
 
 
 class World:
@@ -235,6 +262,14 @@ class World:
             if k == "to":
                 x = ureg.Quantity(F(op[3]), op[1]).to(op[2])
                 return ("str", str((canon_num(x.magnitude), sorted(ucd(x._units).items()))))
+            if k == "tconvert":
+                return ("typed", canon_typed(ureg.convert(typed_magnitude(op[3], op[4]), op[1], op[2])))
+            if k == "tto":
+                x = ureg.Quantity(typed_magnitude(op[3], op[4]), op[1]).to(op[2])
+                return ("typed", canon_typed(x.magnitude), sorted(ucd(x._units).items()))
+            if k == "tcompact":
+                x = ureg.Quantity(typed_magnitude(op[2], op[3]), op[1]).to_compact()
+                return ("typed", canon_typed(x.magnitude), sorted(ucd(x._units).items()))
             if k == "compatible":
                 return ("str", str(ureg.is_compatible_with(op[1], op[2])))
             if k == "contains":
@@ -245,6 +280,12 @@ class World:
 
     def step(self, op):
         """top-level operation: ('other', op) goes to the second registry, ('mkother',) creates it"""
+        if op[0] == "usefloat":
+            # the registry under test is the (never queried) FLOAT registry; only as first operation
+            self.regs[0] = BASE_FLOAT
+            self.q[0] = None
+            self.state[0][:] = [(FLOAT_MARK,), (), "mks"]
+            return 0, ("done",)
         if op[0] == "mkother":
             self.regs[1] = new_registry()
             self.q[1] = None
@@ -363,12 +404,12 @@ class Fresh:
         fn = os.path.join(self.dir, "reg_" + "_".join(defs) + ".txt")
         if not os.path.exists(fn):
             with open(fn, "w") as f:
-                f.write("@import default_en.txt\n" + "".join(DEFS[d]["line"] + "\n" for d in defs))
+                f.write("@import default_en.txt\n" + "".join(DEFS[d]["line"] + "\n" for d in defs if d != FLOAT_MARK))
         return fn
 
     def build(self, defs):
         """a file-built registry in THIS process (used by throw-away children only)"""
-        return new_registry(self.deffile(tuple(defs)))
+        return new_registry(self.deffile(tuple(defs)), float if FLOAT_MARK in defs else F)
 
     def server(self, defs):
         defs = tuple(defs)
@@ -382,7 +423,7 @@ class Fresh:
             try:
                 os.close(c2p_r)
                 os.close(p2c_w)
-                self._serve(fn, p2c_r, c2p_w)
+                self._serve(fn, p2c_r, c2p_w, float if FLOAT_MARK in defs else F)
             finally:
                 os._exit(0)
         os.close(c2p_w)
@@ -390,8 +431,8 @@ class Fresh:
         self.servers[defs] = (pid, p2c_w, c2p_r, os.path.join(self.dir, "lock_" + "_".join(defs)))
         self.builds += 1
 
-    def _serve(self, fn, rfd, wfd):
-        ureg = new_registry(fn)
+    def _serve(self, fn, rfd, wfd, nit=F):
+        ureg = new_registry(fn, nit)
         while True:
             hdr = _readn(rfd, 8)
             n = int.from_bytes(hdr, "big") if len(hdr) == 8 else 0
@@ -406,6 +447,7 @@ class Fresh:
     def prebuild(self):
         """a server for every set of definitions (so that fork()ed workers can use all of them)"""
         import itertools
+        self.server((FLOAT_MARK,))
         names = sorted(DEFS)
         for n in range(len(names) + 1):
             for c in itertools.combinations(names, n):
@@ -500,7 +542,7 @@ def _writeall(fd, data):
         mv = mv[k:]
 
 
-QUERY_KINDS = {"convert", "parse", "parse_ci", "root", "dim", "base", "compat", "qdim", "qcheck", "fmt", "qfmt", "compact", "to",
+QUERY_KINDS = {"tconvert", "tto", "tcompact", "convert", "parse", "parse_ci", "root", "dim", "base", "compat", "qdim", "qcheck", "fmt", "qfmt", "compact", "to",
                "compatible", "contains"}
 
 
@@ -517,6 +559,7 @@ def oracle_question(op, qunits):
 
 # ------------------------------------------------------------------ histories on the real registry
 BASE = None          # never-queried registry; histories run in fork()ed copies
+BASE_FLOAT = None    # the same with float as numeric type
 
 
 def run_history(ops):
@@ -583,6 +626,10 @@ def op_kind(op, klass, dflt="?"):
         return "other:" + op_kind(op[1], klass, dflt)
     if k == "mkother":
         return "other:create"
+    if k == "usefloat":
+        return "float-registry"
+    if k in ("tconvert", "tto", "tcompact"):
+        return {"tconvert": "convert", "tto": "quantity.to", "tcompact": "to_compact"}[k] + f"[{op[-2]}]"
     name = {"convert": "convert", "parse": "parse", "parse_ci": "parse[case-insensitive]", "root": "get_root_units", "dim": "get_dimensionality",
             "base": "get_base_units", "compat": "get_compatible_units", "define": "define", "enable": "enable",
             "disable": "disable", "setsys": "set_default_system", "qnew": "quantity.new", "qimul": "quantity.imul",
@@ -841,7 +888,11 @@ def random_ops(rng, n, model_only=True, with_other=True):
                 op = ("qdim",) if model_only or rng.random() < 0.6 else ("qcheck", rng.choice(["[length]", "[time]", "[length] * [time]"]))
         else:
             op = ("mkother",) if with_other else ("disable",)
-        if not model_only and rng.random() < 0.3:
+        if not model_only and rng.random() < 0.1:
+            mt = rng.choice(MTYPES)
+            a, b = rng.choice([("km", "meter"), ("meter", "km"), ("inch", "foot"), ("hour", "second")])
+            op = rng.choice([("tto", a, b, mt, "3"), ("tconvert", a, b, mt, "3"), ("tcompact", a, mt, "1500")])
+        elif not model_only and rng.random() < 0.3:
             y = rng.random()
             u = rng.choice(["meter", "km", "inch", "smoot", "mile/hour", "kiloinch", "foot", "blip", "kilosmoot"])
             if y < 0.3:
@@ -934,6 +985,15 @@ FORMAT2_ALPHABET = [("define", "blip"), ("other", ("define", "blip_t")),
                     ("fmt", "blip", "~c13x"), ("other", ("fmt", "blip", "~c13x")),
                     ("fmt", "blip/millisecond", "~c13x"), ("other", ("fmt", "kiloinch", "c13x")),
                     ("qfmt", "blip", "3", "~P")]
+
+
+# magnitude TYPES as part of the question: the same ordered unit pair through to / convert / to_compact
+# with int, float, Fraction and Decimal magnitudes; in the Fraction and in the float registry; answers
+# compared with their Python type; fresh registry only
+MTYPES = ["int", "float", "Fraction", "Decimal"]
+TYPED_ALPHABET = ([("tto", "km", "meter", mt, "3") for mt in MTYPES]
+                  + [("tconvert", "km", "meter", "Decimal", "3"), ("tconvert", "km", "meter", "float", "3"),
+                     ("tcompact", "meter", "Decimal", "1500"), ("tcompact", "meter", "int", "1500")])
 
 
 WITNESSES = {
@@ -1207,6 +1267,8 @@ def run(ck):
     klass, tk = forked(classify_strings)
     systems = forked(system_tables)
     BASE = new_registry()          # never queried in this process
+    global BASE_FLOAT
+    BASE_FLOAT = new_registry(None, float)
     fresh = Fresh()
     chk = Checker(ck, fresh, klass)
     try:
@@ -1248,7 +1310,8 @@ def _run(ck, rng, thorough, klass, tk, systems, fresh, chk, coq_ok):
     n_orc = 40 if thorough else 20
     depth = 4 if thorough else 3
     hists = [("rand", i, random_ops(random.Random(rng.random()), n_len)) for i in range(n_hist)]
-    hists += [("orc", i, random_ops(random.Random(rng.random()), n_len, model_only=False)) for i in range(n_orc)]
+    hists += [("orc", i, ([("usefloat",)] if i % 2 else []) + random_ops(random.Random(rng.random()), n_len, model_only=False))
+              for i in range(n_orc)]
     for i, h in WITNESSES.items():
         hists.append(("wit", i, h))
     for i, h in enumerate(isolation_histories()):
@@ -1265,6 +1328,9 @@ def _run(ck, rng, thorough, klass, tk, systems, fresh, chk, coq_ok):
     trees_r = parallel(lambda op: explore(RULES_ALPHABET, depth_r, [op]), RULES_ALPHABET)
     depth_f = 5 if thorough else 4
     trees_f = parallel(lambda op: explore(FORMAT2_ALPHABET, depth_f, [op], precreate=True), FORMAT2_ALPHABET)
+    depth_t = 4 if thorough else 3
+    trees_t = parallel(lambda op: explore(TYPED_ALPHABET, depth_t, [op]), TYPED_ALPHABET)
+    trees_tf = parallel(lambda op: explore(TYPED_ALPHABET, depth_t + 1, [("usefloat",), op]), TYPED_ALPHABET)
     depth_c = 4 if thorough else 3
     trees_c = parallel(lambda op: explore(COMPACT_ALPHABET, depth_c, [op]), COMPACT_ALPHABET)
     T["exhaustive"] = time.time()
@@ -1307,15 +1373,26 @@ def _run(ck, rng, thorough, klass, tk, systems, fresh, chk, coq_ok):
         p = precs[0]
         flat.append(([op0], p[1], p[2], p[3], p[4]))
         flatten_tree([op0], kids, flat)
+    n_fmt = len(flat) - n_general - n_base - n_rules - n_compact
+    for op0, (precs, kids) in zip(TYPED_ALPHABET, trees_t):
+        p = precs[0]
+        flat.append(([op0], p[1], p[2], p[3], p[4]))
+        flatten_tree([op0], kids, flat)
+    for op0, (precs, kids) in zip(TYPED_ALPHABET, trees_tf):
+        p = precs[1]
+        flat.append(([("usefloat",), op0], p[1], p[2], p[3], p[4]))
+        flatten_tree([("usefloat",), op0], kids, flat)
     ck.extra["exhaustive_histories"] = len(flat)
     ck.extra["exhaustive_depth"] = {"12-op alphabet": depth, f"{len(alpha_b)}-op base-units alphabet": depth_b,
                                     "8-op rule-contexts alphabet (oracle only)": depth_r,
                                     "9-op to_compact x definitions alphabet (oracle only)": depth_c,
-                                    "7-op two-registry formatting alphabet (oracle only)": depth_f}
+                                    "7-op two-registry formatting alphabet (oracle only)": depth_f,
+                                    "8-op typed-magnitude alphabet, Fraction and float registry (oracle only)": depth_t}
     ck.extra["exhaustive_histories_by_alphabet"] = {"12-op alphabet": n_general, f"{len(alpha_b)}-op base-units alphabet": n_base,
                                                     "8-op rule-contexts alphabet (oracle only)": n_rules,
                                                     "9-op to_compact x definitions alphabet (oracle only)": n_compact,
-                                                    "7-op two-registry formatting alphabet (oracle only)": len(flat) - n_general - n_base - n_rules - n_compact}
+                                                    "7-op two-registry formatting alphabet (oracle only)": n_fmt,
+                                                    "8-op typed-magnitude alphabet, Fraction and float registry (oracle only)": len(flat) - n_general - n_base - n_rules - n_compact - n_fmt}
     for h, rr, ans, before, qu in flat:
         inner = h[-1][1] if h[-1][0] == "other" else h[-1]
         q = oracle_question(inner, qu)
@@ -1418,6 +1495,8 @@ def replay(ck, path):
     register_custom_format()
     klass, tk = forked(classify_strings)
     BASE = new_registry()
+    global BASE_FLOAT
+    BASE_FLOAT = new_registry(None, float)
     fresh = Fresh()
     try:
         chk = Checker(ck, fresh, klass)
